@@ -54,3 +54,11 @@ Definition show_count (n : nat) : string := "BEGIN" ++ nl ++ show_nat n ++ nl ++
 (* extract on a value through the path string the model renders *)
 Definition c09_extract_case (obj : value) (ks : path) : sx :=
   SL [ sx_str (render ks); sx_opt sx_value (extract obj (render ks)); sx_opt sx_value (resolve obj ks) ].
+
+(* several reported locations of one diff: for each the rendered path, the list-form
+   path (asked twice) and the list-form paths of its ancestor levels, nearest first *)
+Definition c09_multi (locs : list path) : sx :=
+  SL (map (fun ks =>
+        let n := norm ks in
+        SL [ sx_str (render ks); sx_path n; sx_path n;
+             SL (map (fun k => sx_path (firstn k n)) (rev (seq 0 (List.length n)))) ]) locs).
